@@ -151,8 +151,26 @@ func VerifHarness_C12_partition_symbolic() {
 	rt.Assume(len(in[0]) < 1<<61)
 	out := [][]byte{rt.AbstractBytesLen("out", len(in[0]))}
 	m := gf2p16.NewMatrixFromSlice(1, 1, []gf2p16.T{3})
+	if !rt.IsSymbolic() {
+		// native replay: real contents, so that an uncovered range shows in the output
+		for i := range in[0] {
+			in[0][i] = byte(i*7 + 1)
+		}
+	}
 	applyMatrixParallelData(m, in, out, g)
 	rt.TaskRangesPartition(len(in[0]))
+	if !rt.IsSymbolic() {
+		want := [][]byte{make([]byte, len(in[0]))}
+		applyMatrixSingle(m, in, want)
+		same := true
+		for i := range want[0] {
+			if out[0][i] != want[0][i] {
+				same = false
+			}
+		}
+		rt.Assert(same, "worker ranges cover the whole shard")
+		rt.Assert(rt.GuardsIntact(), "worker ranges lie inside the shard")
+	}
 }
 
 // ---------- C07 unit VCs ----------
